@@ -13,8 +13,8 @@ MANIFEST = {
     "engine": "qv-native",
     "category": "proof",
     "technique": "contracts on swap, SWAP.apply and importance_sampling_weight with callees stubbed by opaque specs; purity lemma over symbolic psi / rho; obligations by polynomial normal form and z3",
-    "text": "swap is proved to exchange exactly the columns of the region (int / list / array / tensor / empty encodings) on clones, leaving the batch untouched; SWAP.apply is executed with importance_sampling_weight replaced by an opaque weight table and must return Re[w(s'_i,s_i) w(s'_(i-1),s_(i-1))] with the cyclic partner i-1 for batches of 1..4 distinct rows; importance_sampling_weight is numerator/denominator. The lemma sum_{s1,s2} p(s1)p(s2) apply([s1;s2])[0] == tr(rho_A^2) (explicit partial trace) is discharged for arbitrary symbolic pure and Hermitian mixed states and all 2^n regions, plus purity symmetry A <-> complement and the trivial regions for pure states; for n = 2 non-negativity of S2 is certified by the identity (tr rho_A)^2 - tr rho_A^2 == 2|psi00 psi11 - psi01 psi10|^2.",
-    "note": "tr M^2 <= (tr M)^2 for PSD M (needed for S2 >= 0 beyond the n = 2 certificate) is cited mathematics, with a bounded driver; floats as reals; n <= 2 quick, n <= 3 thorough for the lemma, batch sizes 1..4",
+    "text": "swap is proved to exchange exactly the columns of the region (int / list / array / tensor / empty encodings) on clones, leaving the batch untouched; SWAP.apply is executed with importance_sampling_weight replaced by an opaque weight table and must return Re[w(s'_i,s_i) w(s'_(i-1),s_(i-1))] with the cyclic partner i-1 for batches of 1..4 distinct rows; importance_sampling_weight is numerator/denominator. The lemma sum_{s1,s2} p(s1)p(s2) apply([s1;s2])[0] == tr(rho_A^2) (explicit partial trace) is discharged for arbitrary symbolic pure and Hermitian mixed states and all 2^n regions, plus purity symmetry A <-> complement and the trivial regions for pure states; non-negativity of S2 is certified for every region by the identity (tr rho_A)^2 - tr rho_A^2 == 2 * sum of squared moduli of the 2x2 minors of the (purified) amplitude matrix.",
+    "note": "S2 >= 0 is certified by the Binet-Cauchy sum-of-squares identity for every enumerated region (pure states n <= 3, mixed states through a rank-2 purification n <= 2); for larger sizes / ranks it rests on tr M^2 <= (tr M)^2 for PSD M (bounded driver); floats as reals; batch sizes 1..4",
 }
 EXPLANATION = "opaque weight table for the stubbed callee; symbolic complex amplitudes / Hermitian matrix entries for the lemma"
 TRUSTED = ["tr M^2 <= (tr M)^2 for positive semidefinite M (only used for S2 >= 0 beyond n = 2)"]
@@ -26,8 +26,8 @@ def configs(tier):
     for n in range(1, nmax + 1):
         for A in itertools.chain.from_iterable(itertools.combinations(range(n), k) for k in range(n + 1)):
             out.append({"part": "apply", "n": n, "A": list(A)})
-            for flav in ("pure", "mixed"):
-                if flav == "mixed" and n > 2:
+            for flav in ("pure", "mixed", "purified"):
+                if flav != "pure" and n > 2:
                     continue
                 out.append({"part": "lemma", "n": n, "A": list(A), "flavour": flav})
     out.append({"part": "weight"})
@@ -150,6 +150,9 @@ def _lemma(ctx, cfg):
     if flav == "pure":
         psi = [alg.par("psi_re[%d]" % k) + I * alg.par("psi_im[%d]" % k) for k in range(D)]
         rho = [[psi[a] * alg.conj(psi[b]) for b in range(D)] for a in range(D)]
+    elif flav == "purified":
+        PsiK = [[alg.par("P%d_re[%d]" % (k, s_)) + I * alg.par("P%d_im[%d]" % (k, s_)) for s_ in range(D)] for k in range(2)]
+        rho = [[sum((PsiK[k][a] * alg.conj(PsiK[k][b]) for k in range(2)), ZERO) for b in range(D)] for a in range(D)]
     else:
         rho = [[None] * D for _ in range(D)]
         for a in range(D):
@@ -213,19 +216,32 @@ def _lemma(ctx, cfg):
         trfull = sum((rho[k][k] for k in range(D)), ZERO)
         if len(A) in (0, n):
             ctx.eq("lemma/pure: trivial region gives (tr rho)^2 (entropy zero)", pA, trfull * trfull, z3_confirm=False)
-        if len(repsA) == 2:
-            a0, a1 = repsA
-            # Lagrange identity: (tr M)^2 - tr M^2 = 2 det M = sum over pairs of |minor|^2 >= 0
-            det = redA[(a0, a0)] * redA[(a1, a1)] - redA[(a0, a1)] * redA[(a1, a0)]
-            ctx.eq("lemma/pure: (tr rho_A)^2 - tr rho_A^2 == 2 det rho_A", trA * trA - pA, 2 * det, z3_confirm=False)
-            rest = Bc
-            repsC = sorted({compose(0, k, A, rest) for k in range(D)})
-            sos = ZERO
-            for i, b in enumerate(repsC):
-                for b2 in repsC[i + 1:]:
-                    m = psi[compose(a0, b, A, rest)] * psi[compose(a1, b2, A, rest)] - psi[compose(a0, b2, A, rest)] * psi[compose(a1, b, A, rest)]
-                    sos = sos + m * alg.conj(m)
-            ctx.eq("lemma/pure: det rho_A == sum of squared moduli of 2x2 minors (hence S2 >= 0)", det, sos, z3_confirm=False)
+        # S2 >= 0: Binet-Cauchy / Lagrange identity, a sum-of-squares certificate for every region:
+        # (tr rho_A)^2 - tr rho_A^2 == 2 * sum_{a<a'} sum_{b<b'} |psi(a,b) psi(a',b') - psi(a,b') psi(a',b)|^2
+        rest = Bc
+        repsC = sorted({compose(0, k, A, rest) for k in range(D)})
+        sos = ZERO
+        for ia, a0 in enumerate(repsA):
+            for a1 in repsA[ia + 1:]:
+                for ib, b in enumerate(repsC):
+                    for b2 in repsC[ib + 1:]:
+                        m = psi[compose(a0, b, A, rest)] * psi[compose(a1, b2, A, rest)] - psi[compose(a0, b2, A, rest)] * psi[compose(a1, b, A, rest)]
+                        sos = sos + m * alg.conj(m)
+        ctx.eq("lemma/pure: (tr rho_A)^2 - tr rho_A^2 == 2 * sum of squared moduli of 2x2 minors (hence S2 >= 0)", trA * trA - pA, 2 * sos, z3_confirm=False)
+    if flav == "purified":
+        # mixed state given by a purification Psi(sigma, k), k = 0,1: rho = sum_k Psi_k Psi_k^dagger (every PSD rho of
+        # rank <= 2); the same certificate with the purifying index counted to the traced-out part
+        K = 2
+        repsC = sorted({compose(0, k, A, Bc) for k in range(D)})
+        sos = ZERO
+        for ia, a0 in enumerate(repsA):
+            for a1 in repsA[ia + 1:]:
+                cols = [(b, k) for b in repsC for k in range(K)]
+                for ic, (b, k) in enumerate(cols):
+                    for (b2, k2) in cols[ic + 1:]:
+                        m = PsiK[k][compose(a0, b, A, Bc)] * PsiK[k2][compose(a1, b2, A, Bc)] - PsiK[k2][compose(a0, b2, A, Bc)] * PsiK[k][compose(a1, b, A, Bc)]
+                        sos = sos + m * alg.conj(m)
+        ctx.eq("lemma/purified mixed state: (tr rho_A)^2 - tr rho_A^2 == 2 * sum of squared moduli of minors (hence S2 >= 0)", trA * trA - pA, 2 * sos, z3_confirm=False)
 
 
 def replay(o):
